@@ -21,7 +21,7 @@ fn run(comp: &str, tgt: &str, calls: &[Value]) -> Value {
     let mut acc: Vec<(u8, Item)> = vec![];
     let mut steps = vec![];
     let mut notes: Vec<String> = vec![];
-    let is_stream = tgt == "stream";
+    let is_stream = tgt == "stream" || tgt == "sarray";
     let mut finished: Option<(Vec<u8>, Option<Vec<u8>>)> = None;
     for (i, c) in calls.iter().enumerate() {
         let op = c["op"].as_str().unwrap_or("");
